@@ -3,7 +3,7 @@
 // Code generated from harness/C07/common.go.tmpl by harness/C07/gen.sh; DO NOT EDIT.
 // Shared plumbing of the C07 harnesses: case reader, token printers, per-case recover() and watchdog.
 
-package l2tp
+package local
 
 import (
 	"bufio"
